@@ -1148,7 +1148,7 @@ func (rl *Shell) printLastKeyboardMacro() {
 
 	rl.Macros.PrintLastMacro()
 
-	rl.Prompt.PrimaryPrint()
+	rl.Display.PrintPrimaryPrompt()
 	rl.Display.Refresh()
 }
 
@@ -1466,7 +1466,7 @@ func (rl *Shell) dumpFunctions() {
 	fmt.Println()
 
 	defer func() {
-		rl.Prompt.PrimaryPrint()
+		rl.Display.PrintPrimaryPrompt()
 		rl.Display.Refresh()
 	}()
 
@@ -1483,7 +1483,7 @@ func (rl *Shell) dumpVariables() {
 	fmt.Println()
 
 	defer func() {
-		rl.Prompt.PrimaryPrint()
+		rl.Display.PrintPrimaryPrompt()
 		rl.Display.Refresh()
 	}()
 
@@ -1528,7 +1528,7 @@ func (rl *Shell) dumpMacros() {
 	fmt.Println()
 
 	defer func() {
-		rl.Prompt.PrimaryPrint()
+		rl.Display.PrintPrimaryPrompt()
 		rl.Display.Refresh()
 	}()
 
